@@ -202,3 +202,17 @@ Example C07_session_in_the_domain :
 Proof.
   eexists. split; [vm_compute; reflexivity|]. intros [| |]; vm_compute; reflexivity.
 Qed.
+
+(** ... and for the UPDATING operations too (Io_flat_upd.v): creation and ANY history, as a whole,
+    are served by any cache in front of each file - every call of the history returns what the
+    flat file returns, whatever the buffer setting *)
+From Aby Require Import Io_flat_upd.
+Theorem C07_every_history_over_any_buffer : forall t n bk bv bh ops,
+  1 <= n -> pow2 n -> Forall (op_wf t) ops -> sized (Store.create t n) ops ->
+  exists m0 m' s',
+    Io.create t n bk bv bh = Ok m0 /\
+    store_run (Store.create t n) ops = Ok (s', snd (spec_run ∅ ops)) /\
+    io_run m0 ops = Ok (m', snd (spec_run ∅ ops)) /\
+    render s' = Ok (Io.images m') /\
+    exists cf, forall f, served_by_cache (empty_st bk bv bh) (m_st m') f (cf f).
+Proof. exact history_over_any_cache. Qed.
